@@ -3,6 +3,7 @@ package rules
 import (
 	"go/token"
 	"go/types"
+	"strings"
 
 	"golang.org/x/tools/go/ssa"
 
@@ -383,4 +384,75 @@ func (c *Ctx) globalNeverWritten(g *ssa.Global) bool {
 	}
 	check(g.Pkg.Func("init"))
 	return ok
+}
+
+// atomicOp selects calls of the sync/atomic operation op ("Add", "Load",
+// "Store", "CompareAndSwap", "Swap") in either spelling: the package function
+// on a plain integer (atomic.AddInt32(&x.f, 1)) or the method of a typed
+// atomic (x.f.Add(1)). In both the first operand is the address of the variable.
+func atomicOp(op string) Sel {
+	return func(in ssa.Instruction) bool {
+		cc := ir.CallOf(in)
+		if cc == nil || cc.IsInvoke() {
+			return false
+		}
+		f := cc.StaticCallee()
+		if f == nil || f.Pkg == nil || f.Pkg.Pkg.Path() != "sync/atomic" {
+			return false
+		}
+		if f.Signature.Recv() != nil {
+			return f.Name() == op
+		}
+		return strings.HasPrefix(f.Name(), op) && len(f.Name()) > len(op)
+	}
+}
+
+func valIsAtomicOp(op string) func(ssa.Value) bool {
+	sel := atomicOp(op)
+	return func(v ssa.Value) bool {
+		in, ok := v.(ssa.Instruction)
+		return ok && sel(in)
+	}
+}
+
+// stdCall returns the call instruction when v is a direct call of the
+// standard-library function pkg.name (generic functions by their origin), and
+// nil otherwise.
+func stdCall(v ssa.Value, pkg, name string) *ssa.Call {
+	call, ok := v.(*ssa.Call)
+	if !ok {
+		return nil
+	}
+	fn := call.Call.StaticCallee()
+	if fn == nil {
+		return nil
+	}
+	if o := fn.Origin(); o != nil {
+		fn = o
+	}
+	if fn.Name() != name || fn.Pkg == nil || fn.Pkg.Pkg.Path() != pkg || fn.Signature.Recv() != nil {
+		return nil
+	}
+	return call
+}
+
+// allValuesOf reports whether v is the slice of every value of a map m with
+// isMap(m), built by the standard library: slices.Collect(maps.Values(m)),
+// slices.AppendSeq(s, maps.Values(m)) (s's own elements stay in front) or
+// slices.Sorted... of the same sequence.
+func allValuesOf(v ssa.Value, isMap func(ssa.Value) bool) bool {
+	v = ir.Strip(v)
+	var seq ssa.Value
+	if c := stdCall(v, "slices", "Collect"); c != nil && len(c.Call.Args) == 1 {
+		seq = c.Call.Args[0]
+	} else if c := stdCall(v, "slices", "AppendSeq"); c != nil && len(c.Call.Args) == 2 {
+		seq = c.Call.Args[1]
+	} else if c := stdCall(v, "slices", "Sorted"); c != nil && len(c.Call.Args) == 1 {
+		seq = c.Call.Args[0]
+	}
+	if seq == nil {
+		return false
+	}
+	mv := stdCall(ir.Strip(seq), "maps", "Values")
+	return mv != nil && len(mv.Call.Args) == 1 && isMap(mv.Call.Args[0])
 }
